@@ -11,6 +11,7 @@ module is therefore rewritten *in memory* by the inverse refactorings, each of w
      or a call site in return position) and dropped when no reference to it remains;
   4. a local unknown to the reference, bound once to a side-effect-free expression, is replaced by that expression;
   5. ``x = a if c else b`` / ``return a if c else b`` unknown to the reference become if/else statements;
+  7. ``for i in range(K)`` with a small constant K and ``[e for i in range(K)]`` unknown to the reference are unrolled;
   6. ``x = [e for v in L if c]``, ``{k: e for ...}``, ``sum(e for ...)`` unknown to the reference become an initialisation and a loop.
 
 The reference (``oracles/reference_shape.json``, tools/gen_reference_shape.py) records names only: which constants,
@@ -124,8 +125,13 @@ def comp_texts(fn):
     return sorted(_shape_txt(n) for n in ast.walk(fn) if isinstance(n, (ast.ListComp, ast.DictComp, ast.SetComp, ast.GeneratorExp)))
 
 
+def loop_texts(fn):
+    return sorted(_shape_txt(n) for n in ast.walk(fn) if isinstance(n, ast.For))
+
+
 def shape_of(tree):
     return {
+        'loops': {q: loop_texts(f) for q, f in functions(tree) if loop_texts(f)},
         'comps': {q: comp_texts(f) for q, f in functions(tree) if comp_texts(f)},
         'consts': sorted(const_names(tree)),
         'funcs': sorted(q for q, _ in functions(tree)),
@@ -914,6 +920,78 @@ def expand_ifexps(tree, ref):
     return total
 
 
+# ---------------------------------------------------------------------------------------------- 7. constant-bound loops
+def _const_range(it):
+    if isinstance(it, ast.Call) and isinstance(it.func, ast.Name) and it.func.id == 'range' and 1 <= len(it.args) <= 3 and not it.keywords:
+        try:
+            vals = [_literal(a, {}) for a in it.args]
+        except ValueError:
+            return None
+        if all(isinstance(v, int) and not isinstance(v, bool) for v in vals):
+            r = range(*vals)
+            if 1 <= len(r) <= 8:
+                return list(r)
+    return None
+
+
+def unroll_loops(tree, ref):
+    """`for i in range(K): body` (K a small constant) unknown to the reference -> K copies of the body with i replaced by its value;
+    `[e for i in range(K)]` unknown to the reference -> the list literal.  Only where the loop variable is not re-bound, the loop has
+    no break/continue/else and the variable is not read after the loop."""
+    known_l, known_c = ref.get('loops', {}), ref.get('comps', {})
+    total = 0
+    for q, fn in functions(tree):
+        keep = list(known_l.get(q, []))
+        fors = [n for n in ast.walk(fn) if isinstance(n, ast.For)]
+        if len(fors) > len(keep):
+            for _ in range(6):
+                changed = False
+                for block in _blocks(fn):
+                    for i, st in enumerate(block):
+                        if not isinstance(st, ast.For) or st.orelse or not isinstance(st.target, ast.Name):
+                            continue
+                        vals = _const_range(st.iter)
+                        if vals is None or _shape_txt(st) in keep:
+                            continue
+                        v = st.target.id
+                        inner = [n for s_ in st.body for n in ast.walk(s_)]
+                        if any(isinstance(n, (ast.Break, ast.Continue, ast.Return, ast.FunctionDef, ast.Lambda)) for n in inner):
+                            continue
+                        if any(isinstance(n, ast.Name) and n.id == v and isinstance(n.ctx, (ast.Store, ast.Del)) for n in inner):
+                            continue
+                        after = [n for s_ in block[i + 1:] for n in ast.walk(s_) if isinstance(n, ast.Name) and n.id == v and isinstance(n.ctx, ast.Load) and not _rebound_around(fn, n)]
+                        if after:
+                            continue
+                        new = []
+                        for k in vals:
+                            sub = _Subst({v: ast.Constant(value=k)})
+                            new.extend(sub.visit(copy.deepcopy(s_)) for s_ in st.body)
+                        block[i:i + 1] = new
+                        changed = True
+                        total += 1
+                        break
+                    if changed:
+                        break
+                if not changed or len([n for n in ast.walk(fn) if isinstance(n, ast.For)]) <= len(keep):
+                    break
+        keepc = list(known_c.get(q, []))
+        comps = [n for n in ast.walk(fn) if isinstance(n, (ast.ListComp, ast.DictComp, ast.SetComp, ast.GeneratorExp))]
+        if len(comps) > len(keepc):
+            class U(ast.NodeTransformer):
+                def visit_ListComp(self, n):
+                    self.generic_visit(n)
+                    if len(n.generators) == 1 and not n.generators[0].ifs and isinstance(n.generators[0].target, ast.Name) and _shape_txt(n) not in keepc:
+                        vals = _const_range(n.generators[0].iter)
+                        if vals is not None:
+                            v = n.generators[0].target.id
+                            return ast.copy_location(ast.List(elts=[_Subst({v: ast.Constant(value=k)}).visit(copy.deepcopy(n.elt)) for k in vals], ctx=ast.Load()), n)
+                    return n
+            before = len(comps)
+            fn.body = [U().visit(s_) for s_ in fn.body]
+            total += before - len([n for n in ast.walk(fn) if isinstance(n, (ast.ListComp, ast.DictComp, ast.SetComp, ast.GeneratorExp))])
+    return total
+
+
 # ---------------------------------------------------------------------------------------------- 6. comprehensions
 def expand_comprehensions(tree, ref):
     """x = [e for v in L if c] / {k: e for ...} / sum(e for ...) unknown to the reference -> initialisation + loop"""
@@ -1001,6 +1079,7 @@ def normalise(tree, path, ref_locals):
     out = {}
     for name, fn in (('attributes', lambda: rename_attributes(tree, ref)), ('constants', lambda: inline_constants(tree, ref)),
                      ('helpers', lambda: inline_helpers(tree, ref)), ('ifexps', lambda: expand_ifexps(tree, ref)),
+                     ('unrolled', lambda: unroll_loops(tree, ref)),
                      ('comprehensions', lambda: expand_comprehensions(tree, ref)),
                      ('temps', lambda: inline_temps(tree, path, ref_locals or {}))):
         try:
